@@ -112,3 +112,12 @@ package stream
 //@     assert[C10] arg0 == w && writes == 0
 //@     after: writes = writes + 1
 //@   ensures[C10] writes == 1
+
+// C08: the two constructors of the checking reader: the reader used on an
+// established stream is not in negotiating mode (so a stream restart is an
+// error there), the one used while reading a header is; both read from the
+// reader they were given and carry the framing flag.
+//@ func Reader
+//@   ensures[C08] typeof(result) == *reader && result.(*reader).r == r && result.(*reader).ws == ws && !result.(*reader).negotiating
+//@ func negotiateReader
+//@   ensures[C08,C12] typeof(result) == *reader && result.(*reader).r == r && result.(*reader).ws == ws && result.(*reader).negotiating
